@@ -73,7 +73,7 @@ def do_entry(entry, validate=False, tier="quick"):
             if not os.path.exists(os.path.join(VERIF, "sa", "rules", prop.lower() + ".py")):
                 continue
             code, out = run_check(prop, root, tier)
-            rules = sorted(set(re.findall(r"^\s+(C\d+\.[\w-]+) at ", out, re.M)))
+            rules = sorted(set(re.findall(r"^\s+(C\d+\.[\w/-]+) at ", out, re.M)))
             res["checks"][prop] = {"exit": code, "rules": rules,
                                    "out": out if code == 2 else "\n".join(out.splitlines()[:8])}
         if validate:
